@@ -565,6 +565,30 @@ fn pool_uncached(seed: u64) -> Vec<DistSpec> {
         }
         v.extend(extra);
     }
+    // all parameters equal (degenerate members such as the point mass Triangular(x, x, x)):
+    // a constant derived from differences or ratios of the parameters is 0/0 there
+    for s in [Scalar::F32, Scalar::F64] {
+        for fam in env::CONT_FAMILIES {
+            let Some(base) = env::cont_grid(fam, s).into_iter().next() else { continue };
+            if base.p.len() < 2 {
+                continue;
+            }
+            for c in [1.0, 0.5, 2.0, 3.1, -2.3, 0.0] {
+                let mut spec = base.clone();
+                for x in spec.p.iter_mut() {
+                    *x = c;
+                }
+                // (the documentation of LogNormal::from_mean_cv requires mean > 0; its constructor
+                // lets a non-positive mean through when cv == 0: C04's domain, not a valid value)
+                if fam == Family::LogNormalMeanCv && c <= 0.0 {
+                    continue;
+                }
+                if build_caught(&spec).is_ok() {
+                    v.push(spec);
+                }
+            }
+        }
+    }
     v.extend(field_cover_specs(seed));
     // keep constructors cheap: drop HIN set-ups that take long and vectors above 100 entries
     v.retain(|s| match s.family {
